@@ -11,7 +11,7 @@ EXTRA = {"C03": ["C17"], "C04": ["C17", "C05"], "C05": ["C17"], "C07": ["C08"], 
          "C13": ["C20", "C17"], "C15": ["C03", "C17", "C18"], "C16": [], "C17": ["C03", "C16"], "C18": ["C17"], "C20": ["C17"]}
 names = sys.argv[1:] or sorted(d for d in os.listdir(SD) if os.path.isdir(os.path.join(SD, d)) and "-" in d)
 v1 = {}
-for fn in ("v1_results.json", "v2_results.json", "v3_results.json", "v4_results.json", "v5_results.json", "v6_results.json", "v7_results.json", "v8_results.json"):     # results of the checks as they were when each seed arrived
+for fn in ("v1_results.json", "v2_results.json", "v3_results.json", "v4_results.json", "v5_results.json", "v6_results.json", "v7_results.json", "v8_results.json", "v9_results.json"):     # results of the checks as they were when each seed arrived
   if os.path.exists(os.path.join(SD, fn)):
     v1.update(json.load(open(os.path.join(SD, fn))))
 rows = []
@@ -49,7 +49,7 @@ for nm in names:
 lines = ["# Seeded changes vs checks (quick tier, VERIF_SEED=0)", "",
          "exit 1 = the check reports a VIOLATION on the changed tree, 0 = it does not. 'on arrival' = the checks as they were",
          "when the seed arrived, i.e. before they were strengthened in response to it (seeds -1..-3: first round, -4/-5: second",
-         "round whose files were lost with a sandbox restore, -6/-7: third round, -8/-9: fourth round, -10/-11: fifth round, -12/-13: sixth round, -14/-15: seventh round, -16/-17: eighth round, -18/-19: ninth round).", "",
+         "round whose files were lost with a sandbox restore, -6/-7: third round, -8/-9: fourth round, -10/-11: fifth round, -12/-13: sixth round, -14/-15: seventh round, -16/-17: eighth round, -18/-19: ninth round, -20: tenth round).", "",
          "| seed | what it breaks / needs | own check on arrival | own check now | other checks now |", "|---|---|---|---|---|"]
 for nm in sorted(d for d in os.listdir(SD) if os.path.isdir(os.path.join(SD, d)) and "-" in d):
   meta = json.load(open(os.path.join(SD, nm, "meta.json")))
